@@ -9,7 +9,7 @@ os.makedirs(dst, exist_ok=True)
 for f in os.listdir(src):
     if f in ("patch.diff", "RUN.txt", "NOTE.md") or f.endswith(".go"):
         shutil.copy(os.path.join(src, f), os.path.join(dst, f))
-note = open(os.path.join(src, "NOTE.md")).read()
+note = open(os.path.join(src, "NOTE.md"), errors="replace").read()
 run = open(os.path.join(src, "RUN.txt")).read().strip()
 files = sorted(set(re.findall(r"^\+\+\+ b/(\S+)", open(os.path.join(src, "patch.diff")).read(), re.M)))
 meta = {
